@@ -10,7 +10,7 @@ CLAIMED = {
     "C01": dict(
         engine="E-CHAOS",
         technique="deterministic simulation with fault injection: concurrent programs run under hostile knobs, seeded schedules including starvation, cancellation at a seeded tick and clock jumps; crash monitor (Go panic in any task, worker process death) as the only oracle",
-        text="Claimed as a slice: programs whose crash-freedom depends on a coincidence the simulator controls (schedule, cancellation instant, timers, knob extremes, primitives used across threads). Twelve chaos templates plus the generators of the other engines run with small stacks (the smallest ones in recycled worker processes), pool and queue of 1, a cancel at a PRNG-chosen tick and clock jumps; a Go panic that reaches the top of any goroutine, or the death of the worker process, is a violation (stack-limit reports excepted). Sequential crash-freedom over all programs is input generation and is not claimed. Exploration level.",
+        text="Claimed as a slice: programs whose crash-freedom depends on a coincidence the simulator controls (schedule, cancellation instant, timers, knob extremes, primitives used across threads). Thirteen chaos templates plus the generators of the other engines run with small stacks (the smallest ones in recycled worker processes), pool and queue of 1, a cancel at a PRNG-chosen tick and clock jumps; a Go panic that reaches the top of any goroutine, or the death of the worker process, is a violation (stack-limit reports excepted). Sequential crash-freedom over all programs is input generation and is not claimed. Exploration level.",
         design_ref="DESIGN.md 5.10",
     ),
     "C10": dict(
